@@ -268,6 +268,7 @@ type Profile struct {
 	PLog        int
 	PGo         int
 	PCleanupFail int
+	PCleanupSkip int // cleanup bodies may Skip (data dependent)
 	RejectHeavy bool
 	Selector    int // >0: first draw is IntRange(0,99), failures additionally gated on it < Selector
 	HostileLogs bool
@@ -542,7 +543,9 @@ func (g *progGen) cleanupStmt(vars []int, depth int) *Stmt {
 	g.nClean++
 	n := t.Int("cleanup.len", 0, 3)
 	for i := 0; i < n; i++ {
-		switch t.Weighted("cleanup.stmt", 3, 3, 2, 2) {
+		switch t.Weighted("cleanup.stmt", 3, 3, 2, 2, g.pf.PCleanupSkip/10) {
+		case 4:
+			s.Body = append(s.Body, &Stmt{K: SIf, Cond: g.cond(vars), Body: []*Stmt{{K: SSkip, SKind: t.Pick("skip.kind", 3)}}})
 		case 0:
 			s.Body = append(s.Body, &Stmt{K: SCtx})
 		case 1:
